@@ -189,12 +189,18 @@ def run(ctx, chk):
     # as_buffer covers the whole header from its first byte
     ab = prog.fns.get('cart::Header::as_buffer')
     if ab:
-        okb = any((b['term']['k'] == 'call' and (b['term']['resolved'] or '').endswith('slice::from_raw_parts'))
-                  for b in ab['blocks']) and any(
-            (b['term']['k'] == 'call' and (b['term']['resolved'] or '').endswith('mem::size_of') and 'cart::Header' in
-             b['term']['generics']) for b in ab['blocks'])
+        # evaluated, not pattern-matched: the result must be the byte view of the receiver from offset 0 over exactly
+        # size_of::<Header>() bytes, however the pointer and the length are written
+        ipb = absint.Interp(facts)
+        stb = ipb.new_state()
+        hb = ipb.arg_object(stb, 'hdr')
+        hsize = facts['adts']['cart::Header']['size']
+        rb = list(ipb.run('cart::Header::as_buffer', [hb], stb))
+        okb = len(rb) == 1 and rb[0].status == 'ok' and rb[0].ret is not None and rb[0].ret[0] == 'slice' and \
+            rb[0].ret[1] == ('O', 'hdr') and rb[0].ret[2] == () and rb[0].ret[3] == C(64, 0) and rb[0].ret[4] == C(64, hsize)
         if not okb:
-            chk.fail('C19.2', 'as_buffer', 'Header::as_buffer is not the byte view of the whole header', 'src/cart.rs', None)
+            chk.fail('C19.2', 'as_buffer', 'Header::as_buffer is not the byte view of the whole header (%s)'
+                     % [(r_.status, fmt(r_.ret)[:80] if r_.ret is not None else None) for r_ in rb][:2], 'src/cart.rs', None)
     # ---- rule 3 / 5: load_rom paths
     opq = ['system::open_rom_file', 'system::read_header', 'cart::Header::valid_checksum', 'cart::Header::get_title',
            CORE + 'from_rom_file', 'cart::Header::get_rom_size_bytes']
